@@ -612,6 +612,8 @@ def run(ck: core.Check):
         programs.append((prog, "skeleton5:" + tag))
     for prog, tag in L.no_input_programs():  # outputs that read no input at all: the drop build has no inputs
         programs.append((prog, "skeleton5:no-input:" + tag))
+    for prog, tag in L.variadic_programs():  # every sequence-taking constructor x operand count x placement
+        programs.append((prog, "skeleton6:variadic:" + tag))
     n_skel = len(programs)
     for _ in range(ck.pick(60, 600)):  # scalar-attribute operators with unusual values, twins constructed first
         programs.append((L.gen_attr_program(random.Random(rng.getrandbits(48))), "attr"))
@@ -668,6 +670,8 @@ def run(ck: core.Check):
     read_profile = collections.Counter()
     hist_dims = collections.Counter()
     hist_mut = collections.Counter()
+    ev_reqs: list = []
+    ev_obs: list = []
     variant_hist = collections.Counter()
     for pi, (prog, origin) in enumerate(programs):
         bad = L.check_wellformed(prog) + L.typecheck(prog)
@@ -850,6 +854,16 @@ def run(ck: core.Check):
             em_depth[es["depth"]] += 1
             stats["emitted_nodes"] += es["nodes"]
             stats["emitted_graphs"] += es["graphs"]
+            if R is not None and getattr(R, "calls", None) and style == styles[0]:
+                # tie H (Model/Containers.lean): the operands the constructed nodes hold NOW vs the model's snapshots
+                try:
+                    ev_obs.append((L.observed_sequence_operands(R), (pi, style, rseed, origin)))
+                    ev_reqs.append({"events": R.events})
+                except Exception as e:  # noqa: BLE001 - observation facet
+                    stats["container_observation_errors"] += 1
+                    if stats["container_observation_errors"] <= 2:
+                        ck.broken("correspondence", "C01 could not observe the sequence operands of constructed nodes",
+                                  f"{origin}: {type(e).__name__}: {e}")
             if R is not None:
                 stats["caller_owned_containers"] += getattr(R, "owned", 0)
                 for mk_, mv_ in getattr(R, "mutations", {}).items():
@@ -933,6 +947,28 @@ def run(ck: core.Check):
                               f"program #{meta[0]} style={meta[1]} rseed={meta[2]}")
         prev = (o, meta)
 
+    # --- caller-owned containers: the model's snapshots vs what the constructed nodes hold after the mutations
+    try:
+        ev_outs = ck.driver().ask_many("C01", ev_reqs) if ev_reqs else []
+    except Exception as e:  # noqa: BLE001
+        ck.broken("correspondence", "C01 driver (container events)", str(e)[:300])
+        ev_outs = []
+    for o, (obs, meta) in zip(ev_outs, ev_obs):
+        snaps = o.get("snapshots")
+        tagc = None
+        if snaps is None:
+            tagc = "driver-error"
+        elif snaps != [ids for _, ids in obs]:
+            tagc = "constructed-operands-differ-from-the-contents-at-call-time"
+        elif any(tn != "tuple" for tn, _ in obs):
+            tagc = "sequence-operands-held-in-a-mutable-container"
+        if tagc:
+            mism[tagc] += 1
+            if mism[tagc] <= 2:
+                ck.broken("correspondence", f"C01 containers: {tagc}", f"program #{meta[0]} ({meta[3]}) style={meta[1]} rseed={meta[2]}: model {snaps} observed {obs}"[:600])
+        else:
+            stats["container_traces_compared"] += 1
+
     # --- round 7: sequence-taking constructors outside the abstract vocabulary, caller's list mutated afterwards
     probe_hist = collections.Counter()
     try:
@@ -1007,6 +1043,7 @@ def run(ck: core.Check):
                 "caller_owned_lists_handed_to_constructors": stats["caller_owned_containers"],
                 "caller_mutations_after_construction": dict(hist_mut),
                 "container_probes_passed": dict(probe_hist),
+                "container_event_traces_compared_with_model": stats["container_traces_compared"],
                 "emitted_nodes": stats["emitted_nodes"],
                 "emitted_graphs": stats["emitted_graphs"],
                 "unrequested_constructions": stats["unrequested_constructions"],
